@@ -5,7 +5,7 @@
    - 128-EIA2: CMAC (SP 800-38B / RFC 4493) over M = COUNT[0..31] || BEARER[0..4] || DIRECTION || 0^26 || MESSAGE,
      Tlen = 32: MACT = the 32 most significant bits of the CMAC output. *)
 From Coq Require Import NArith List Bool.
-Require Import Bytes AES Modes.
+Require Import Bytes AES Modes Snow3gSpec.
 Import ListNotations.
 Open Scope N_scope.
 
@@ -45,3 +45,21 @@ Proof. vm_compute. reflexivity. Qed.
 Example eia2_ts33401_c2_set2 :
   eia2 aes128 ts33401_k1 0x398A59B4 0x1A 1 [0x48;0x45;0x83;0xD5;0xAF;0xE0;0x82;0xAE] = [0xB9;0x37;0x87;0xE6].
 Proof. vm_compute. reflexivity. Qed.
+
+(* ---- TS 33.501 Annex D: the 5G NAS algorithms.  NEA0 is the null ciphering algorithm (the message is unchanged),
+   128-NEA1 = 128-EEA1, 128-NEA2 = 128-EEA2, 128-NIA1 = 128-EIA1, 128-NIA2 = 128-EIA2 (same inputs).
+   The claim C07 makes covers identifiers 0, 1, 2 for ciphering and 1, 2 for integrity, BEARER < 32, DIRECTION < 2;
+   outside it the specification functions below answer None (no requirement). *)
+Definition nea_spec (E:bytes -> bytes -> bytes) (alg:N) (key:bytes) (count bearer dir:N) (msg:bytes) : option bytes :=
+  if (bearer <? 32) && (dir <? 2) then
+    if alg =? 0 then Some msg
+    else if alg =? 1 then Some (eea1 key count bearer dir msg)
+    else if alg =? 2 then Some (eea2 E key count bearer dir msg)
+    else None
+  else None.
+Definition nia_spec (E:bytes -> bytes -> bytes) (alg:N) (key:bytes) (count bearer dir:N) (msg:bytes) : option bytes :=
+  if (bearer <? 32) && (dir <? 2) then
+    if alg =? 1 then Some (eia1 key count bearer dir msg)
+    else if alg =? 2 then Some (eia2 E key count bearer dir msg)
+    else None
+  else None.
